@@ -64,6 +64,7 @@ def one(path, run_tests=True, props=None):
                                capture_output=True, text=True, timeout=600,
                                env={**os.environ, "VERIF_SELFTEST_CHILD": "1"})
             lines = [l for l in r.stdout.splitlines() if ": VIOLATION --" in l or l.startswith("ANALYSIS-ERROR") or ": UNRESOLVED --" in l]
+            lines.sort(key=lambda l: 0 if ": VIOLATION --" in l else 1)
             checks[p] = {"exit": r.returncode, "lines": [l[:300] for l in lines[:4]]}
         out["checks"] = checks
         out["caught_by"] = [p for p, c in checks.items() if c["exit"] == 1]
@@ -123,6 +124,8 @@ def main():
             m = json.load(open(mp))
             prop = r["property"]
             ck = (r.get("checks") or {}).get(prop, {})
+            if "tests" not in r and (m.get("confirmed") or {}).get("tests_on_patched", "").endswith(tuple("s")) and "passed" in m["confirmed"]["tests_on_patched"]:
+                r["tests"] = m["confirmed"]["tests_on_patched"] + " (earlier pass of this tool)"
             m["confirmed"] = {
                 "how": "tools/seed_validate.py on a scratch copy of /repo under /tmp (removed afterwards): demo on the unchanged copy, "
                        "patch applied, demo again, pinned test suite on the patched copy, then check.py <property> --repo <copy>",
@@ -132,6 +135,9 @@ def main():
                 "caught": ck.get("exit") == 1,
                 "detection": "VIOLATION (exit 1)" if ck.get("exit") == 1 else ("no verdict (exit 2, ANALYSIS-ERROR: shape outside the recognised idioms)" if ck.get("exit") == 2 else "missed (exit 0)"),
             }
+            if refactor:
+                m["confirmed"].pop("caught")
+                m["confirmed"]["detection"] = {0: "silent (exit 0)", 2: "no verdict (exit 2)", 1: "FALSE ALARM (exit 1)"}.get(ck.get("exit"), str(ck.get("exit")))
             json.dump(m, open(mp, "w"), indent=2)
 
 
